@@ -1,4 +1,4 @@
-"""C13 -- a long-lived project answers like a fresh one (clauses R13.1-R13.12)."""
+"""C13 -- a long-lived project answers like a fresh one (clauses R13.1-R13.14)."""
 from __future__ import annotations
 
 import ast
@@ -21,6 +21,7 @@ EXPLANATION = (
     ' R13.10: the change indicator is compared for (in)equality only and carries mtime and size.  R13.11: re-indexing a module deletes its rows on every path before inserting; the LIKE prefix that deletes a package escapes %, _ and the escape character (first).'
     ' R13.12: each validate search looks the validated resource itself up in the watch table, folder or not.'
 )
+EXPLANATION += ' R13.14: a function that remembers its answer under a key reads, in the computation of the remembered value, nothing of its parameters that the key does not contain (followed into the helpers it calls).'
 ASSUMPTIONS = ["required event sets per cache are a hand-confirmed table (sa/rules/c13.py REQUIRED) with reasons"]
 
 MUTATOR_KIND = {"write": "changed", "move": "moved", "remove": "removed", "create_file": "created",
@@ -64,6 +65,10 @@ def check(ctx, res) -> None:
     _indicator_rule(ctx, res)
     _name_index_rule(ctx, res)
     _validated_resource_itself_rule(ctx, res)
+    _rewatch_rule(ctx, res)
+    from .common import memo_key_rule
+
+    memo_key_rule(ctx, res, "R13.14", (), rest=True)
 
 
 def _indicator_rule(ctx, res) -> None:
@@ -107,6 +112,30 @@ def _indicator_rule(ctx, res) -> None:
                 f"the indicator lacks {missing}: an external edit that leaves "
                 + ("the size" if missing == ["getmtime"] else "the time stamp (coarse granularity, or restored with os.utime)")
                 + " unchanged is not seen by validate()", function=gi.qualname)
+
+
+def _rewatch_rule(ctx, res) -> None:
+    """R13.13: registering a resource with the filtered observer (re)records its indicator on EVERY call.  An entry can be
+    stale in the table -- `_perform_changes` stores None for a resource that was moved away or removed, and the path may
+    exist again (undo, a folder moved back) -- so "already in the table" is no reason to skip: with None kept,
+    `_is_changed` answers False for ever and validate() never reports the file again."""
+    idx = ctx.idx
+    f = idx.need_func("rope.base.resourceobserver.FilteredResourceObserver.add_resource")
+    cfg = CFG(common.inlined(idx, f))
+    p0 = (f.call_params() or [None])[0]
+
+    def records(nd) -> bool:
+        return nd.kind == "stmt" and isinstance(nd.ast, ast.Assign) and any(
+            isinstance(t, ast.Subscript) and is_self_attr(t.value, "resources") and isinstance(t.slice, ast.Name) and t.slice.id == p0 for t in nd.ast.targets)
+
+    if not any(records(nd) for nd in cfg.nodes):
+        raise AnalysisError("anchor=FilteredResourceObserver.add_resource: recording of the indicator not found")
+    ok = cfg.must_pass_through(cfg.entry.id, cfg.exit.id, records)
+    res.add("R13.13", "FilteredResourceObserver.add_resource|always-records", ok, f.where,
+            "every call (re)records the indicator of the resource" if ok else
+            "add_resource can return without recording the resource's indicator (an early exit for resources that are already in the table): a None left "
+            "behind by a move/removal stays for ever once the path exists again, `_is_changed` answers False, and external edits of that module are "
+            "never seen by validate() -- the module cache keeps the stale module", function=f.qualname)
 
 
 def _validated_resource_itself_rule(ctx, res) -> None:
